@@ -20,7 +20,8 @@ type Ctx struct {
 	Tier string
 	Prop string
 
-	lockCache *lockInfo
+	lockCache  *lockInfo
+	rolesCache *atpRoles
 }
 
 // PropSpec describes how a property is decided.
